@@ -36,6 +36,9 @@ def build(desc):
                                                            phases defined twice with different names
       {"retouch": {"x": name}}                             a component without phase configuration gets a decoy one and is
                                                            then replaced by itself (same name): change_comp() resets it
+      {"dupbridge": {"child": mux, "slot": k, "rail": r}}  the PMux lists input k by its rail name r followed by a temporary
+                                                           child of that input, which is deleted at the end with
+                                                           del_childs=False (its entry re-points to input k: de-duplication)
       {"bridge": {"child": name, "slot": k}}               the child's k-th parent link is first built through an
                                                            ideal pass-through stage that is deleted at the end with
                                                            del_childs=False (re-linking, PMux input bookkeeping)
@@ -46,6 +49,7 @@ def build(desc):
     order = plan.get("phase_order", "normal")
     bridge = plan.get("bridge")
     retouch = plan.get("retouch")
+    dup = plan.get("dupbridge")
     sys = None
 
     def add(c):
@@ -65,6 +69,13 @@ def build(desc):
             if bridge and bridge["child"] == c["name"]:
                 sys.add_comp(par[bridge["slot"]], comp=PSwitch("__bridge"))
                 par[bridge["slot"]] = "__bridge"
+            if dup and dup["child"] == c["name"]:
+                # the PMux gets input `slot` BY RAIL NAME and, right after it, a temporary child of that very input; deleting
+                # the temporary stage (del_childs=False) re-points its entry to the same input: the two entries denote one
+                # node in two spellings and must collapse into one
+                sys.add_comp(dup["rail"], comp=PSwitch("__dup"))
+                par[dup["slot"]] = dup["rail"]
+                par.insert(dup["slot"] + 1, "__dup")
             sys.add_comp(par if (len(par) > 1 or c.get("plist")) else par[0], comp=comp, **kw)
 
     def comp_phases(cs):
@@ -96,6 +107,8 @@ def build(desc):
             comp_phases([x])
         if bridge:
             sys.del_comp("__bridge", del_childs=False)
+        if dup:
+            sys.del_comp("__dup", del_childs=False)
         if retouch:
             # a component WITHOUT phase configuration is given a decoy configuration and then replaced by an identical
             # component of the same name: change_comp() resets the phase configuration, so the decoy must leave no trace
